@@ -218,8 +218,8 @@ func genFrag(t *rapid.T, env fragEnv) fragR {
 	}
 	if fr.Ctor == "single" {
 		fr.Tracks = []uint32{rapid.SampledFrom(env.ids).Draw(t, "trackID")}
-		fr.Mode = rapid.SampledFrom([]string{"full", "full", "fullTrack", "meta", "metaMany", "metaTrack", "interval"}).Draw(t, "mode")
-		if encrypt && fr.Mode == "interval" {
+		fr.Mode = rapid.SampledFrom([]string{"full", "full", "fullTrack", "meta", "metaMany", "metaTrack", "interval", "intervalThenFull"}).Draw(t, "mode")
+		if encrypt && (fr.Mode == "interval" || fr.Mode == "intervalThenFull") {
 			fr.Mode = "full"
 		}
 	} else {
